@@ -27,7 +27,21 @@ def install(E):
         e.call(handler, [IfaceV('verif.rw', rw), rp])
         st = e.peek(rw).val
         return (st['status'], BytesV(st['body']))
-    I[M + 'mint.vhDo'] = vhdo
+    def model_req(e, a):
+        method, url, vars_, body = a
+        req = e.zero(REQ)
+        req.f[fidx(e, REQ, 'Method')] = method
+        req.f[fidx(e, REQ, 'URL')] = Ptr(Box(Opaque('url', url)))
+        req.f[fidx(e, REQ, 'Body')] = IfaceV('verif.body', Ptr(Box(Opaque('buf', e.tobytes(body)))))
+        rp = Ptr(Box(req))
+        e.P.g.setdefault('muxvars', {})[id(rp.box)] = vars_
+        rw = Ptr(Box(Opaque('rw', dict(status=200, body=StrV(c=''), wrote=False))))
+        return (IfaceV('verif.rw', rw), rp)
+    I[M + 'mint.vhModelReq'] = model_req
+    def model_resp(e, a):
+        st = e.peek(a[0].v).val
+        return (st['status'], BytesV(st['body']))
+    I[M + 'mint.vhModelResp'] = model_resp
     def rw_write(e, a):
         st = e.peek(a[0].v).val
         st['body'] = e.sconcat(st['body'], e.tobytes(a[1])); st['wrote'] = True
